@@ -6,15 +6,16 @@ from harness.core import numeval, pool, tb
 from harness.gen import systems
 from harness.props import _shared
 
-PROOF_MODULE = ["OdeVerif.Proofs.C01", "OdeVerif.Proofs.ReachSpec", "OdeVerif.Proofs.RefinePropagator", "OdeVerif.Proofs.RefineScatter", "OdeVerif.Proofs.RefineSubSystem", "OdeVerif.Proofs.RefineComponents", "OdeVerif.Proofs.RefineShapesPass"]
-GENERATED = ["PyPropagator", "PyScatter", "PySubSystem", "PyComponents", "PyShapesPass"]
+PROOF_MODULE = ["OdeVerif.Proofs.C01", "OdeVerif.Proofs.ReachSpec", "OdeVerif.Proofs.RefinePropagator", "OdeVerif.Proofs.RefineScatter", "OdeVerif.Proofs.RefineSubSystem", "OdeVerif.Proofs.RefineComponents", "OdeVerif.Proofs.RefineShapesPass", "OdeVerif.Proofs.RefineContracts"]
+GENERATED = ["PyPropagator", "PyScatter", "PySubSystem", "PyComponents", "PyShapesPass", "PyContracts"]
 THEOREMS = ["OdeVerif.C01.assemble_ok_linear", "OdeVerif.C01.flow_identity", "OdeVerif.C01.flow_deriv", "OdeVerif.C01.affine_flow_unique",
             "OdeVerif.C01.flow_semigroup", "OdeVerif.C01.analytic_solver_exact", "OdeVerif.C01.blocks_sound", "OdeVerif.C01.sum_mirror_unsound",
             "OdeVerif.ReachSpec.prop_reach_iff", "OdeVerif.ReachSpec.label_ok", "OdeVerif.ReachSpec.label_eq_iff", "OdeVerif.MatrixFlow.P_zero", "OdeVerif.MatrixFlow.P_add", "OdeVerif.MatrixFlow.flow_unique", "OdeVerif.MatrixFlow.P_col_zero",
             "OdeVerif.Refine.propagatorSolver_error_iff", "OdeVerif.Refine.propagatorSolver_ok", "OdeVerif.Refine.propagatorSolver_ok_of_model",
             "OdeVerif.Refine.scatterBlocks_inside", "OdeVerif.Refine.scatterBlocks_outside", "OdeVerif.Refine.scatterBlocks_eq_scatter",
             "OdeVerif.Refine.subSystem_idx", "OdeVerif.Refine.subSystem_A_b", "OdeVerif.Refine.subSystem_c",
-            "OdeVerif.Refine.connectedComponentIndices_refines", "OdeVerif.Refine.mirror_spec", "OdeVerif.Refine.mem_groupByLabel", "OdeVerif.Refine.groupByLabel_same", "OdeVerif.Refine.fromJsonToShapes_keys", "OdeVerif.Refine.fromJsonToShapes_time_not_param"]
+            "OdeVerif.Refine.connectedComponentIndices_refines", "OdeVerif.Refine.mirror_spec", "OdeVerif.Refine.mem_groupByLabel", "OdeVerif.Refine.groupByLabel_same", "OdeVerif.Refine.fromJsonToShapes_keys", "OdeVerif.Refine.fromJsonToShapes_time_not_param",
+            "OdeVerif.Refine.isZero_refines"]
 LEVEL = "proof"
 LINEAR_SHAPES = ["isolated", "chain", "fan_in", "fan_out", "cycle", "antisym", "nonadjacent", "offset_single", "offset_in_group", "depends_on_offset",
                  "higher_order", "higher_order_offset", "analytic_dep_numeric", "dense3", "const_drift", "offset_single", "chain_from_offset", "tiny_literals", "time_dependent", "second_order_real", "sum_coefficients", "exact_constants"]
